@@ -85,8 +85,36 @@ def reference(case):
     return evs, res
 
 
-def monitor(case, o):
+def monitor_wait(case, o):
+    """wait-for-end: a to_wait() issued while a process is running resolves at the instant THAT process is reaped (also when
+    a graceful stop or restart is in progress); issued while nothing runs it resolves at once"""
     out = []
+    ops = case["ops"]
+    if any(op["op"] in ("raw", "run_async", "delete", "delete_now") for op in ops):
+        return out
+    evs = parse_log(o)
+    for k, (op, ws) in enumerate(zip(ops, o["tickets"])):
+        if op["op"] != "to_wait" or not op.get("yield", True):
+            continue
+        T = op["at"]
+        if any(x["at"] == T for i, x in enumerate(ops) if i != k) or any(t == T for t, ev, a in evs):
+            continue                # something else happens at that very instant: not decidable from the log
+        if k > 0 and not ops[k - 1].get("yield", True):
+            continue                # sent in a burst: the task may still be busy with earlier controls
+        spawned = [a[0] for t, ev, a in evs if ev == "spawn" and t < T]
+        reaped = {a[0]: t for t, ev, a in evs if ev == "reap"}
+        running = [c for c in spawned if c not in reaped or reaped[c] > T]
+        if not running:
+            if ws[0] != T:
+                out.append(("C09_wait_idle_immediate: to_wait() with nothing running did not resolve at once", f"op {k} at {T}: {ws}"))
+        elif running[-1] in reaped and ws[0] != reaped[running[-1]]:
+            out.append(("C09_wait_for_end: the ticket did not resolve when the process that was running at the call ended",
+                        f"op {k} at {T}: process {running[-1]} reaped at {reaped[running[-1]]}, ticket {ws}"))
+    return out
+
+
+def monitor(case, o):
+    out = monitor_wait(case, o)
     ops = case["ops"]
     child = case["script"]["children"]
     settled = all(op.get("yield", True) for op in ops) and all(op["op"] in SIMPLE for op in ops) \
